@@ -10,7 +10,8 @@ SPEC = dict(
          "the fake server), injected multi-key pushes, then Close or kill; ground truth = the invalidate pushes found in the bytes the client "
          "read (client-side tee); (b) a dedicated client installing / replacing / clearing hook sets with and without an invalidation callback, "
          "pushes and messages in between, then release, Close or kill; both with and without the client-side cache (DisableCache + CLIENT TRACKING ON "
-         "by hand); the hook kind also checks each hook set's invalidation log directly against the pushes the server was made to send. "
+         "by hand) and, for the hook kind, with and without ClientOption.OnInvalidations set as well (both callbacks on the dedicated "
+         "connection: the client-wide log must equal every push sent on it + nil when it is lost); the hook kind also checks each hook set's invalidation log directly against the pushes the server was made to send. "
          "obs_dedicated: release after SetOnInvalidations turns tracking off before reuse",
     trusted=["client-side tee + minimal RESP3 scanner (harness/psx) as ground truth of the pushes on the wire",
              "fake Redis server tracking (OPTIN, invalidation pushes, flush pushes)"],
@@ -22,7 +23,8 @@ MANIFEST = dict(
     text="Proof: for every schedule of the connection LTS, ClientOption.OnInvalidations has been called with exactly the key lists of the "
          "invalidate pushes the reader handled, in wire order, nil for a flush, plus one nil once the connection is lost, and never when "
          "unset (C27_exact); the invalidation callback of a dedicated client's hook set saw exactly the pushes handled while that set was "
-         "installed, plus a final nil iff it was installed when the connection was lost (C27_exact_hooks); releasing a dedicated client "
+         "installed, plus a final nil iff it was installed when the connection was lost (C27_exact_hooks); with both configured on one connection every push goes to BOTH callbacks, the hook's does not replace the "
+         "client-wide one (C27_exact_both_callbacks); releasing a dedicated client "
          "that installed an invalidation callback sends CLIENT TRACKING OFF in its own name and leaves tracking off before the wire is "
          "released (C27_tracking_off). Tied to the code by comparing callback logs with the pushes actually read from the connection "
          "(client-side tee) and with the model, and by the dedicated-client observer for the tracking-off clean-up.",
